@@ -5,6 +5,8 @@ import (
 	"net/url"
 	"strings"
 
+	"github.com/gookit/rux"
+
 	"verif/mc/fw"
 	"verif/mc/refmodel"
 )
@@ -50,6 +52,12 @@ type c01Case struct {
 	Routes  []refmodel.RouteDef `json:"routes"`
 	Methods []string            `json:"request_methods"`
 	Via     []string            `json:"registered_via,omitempty"` // registration API per route ("" = Add)
+	// Inspect: the router's read-only inspection API (String, Routes, IterateRoutes, NamedRoutes) is used between
+	// registration and the requests
+	Inspect bool `json:"inspected_before_requests,omitempty"`
+	// Late: the router caches dynamic matches (capacity 64) and the LAST route is registered only after all requests
+	// were issued once; every request is then issued again and judged against the full table
+	Late bool `json:"last_route_registered_late,omitempty"`
 }
 
 var c01MethodSets = [][]string{{"GET"}, {"POST"}, {"GET", "POST"}, {"PUT", "DELETE", "GET"}}
@@ -129,6 +137,11 @@ func c01Gen(tier string, emit func(c01Case)) {
 		emit(c01Case{Routes: []refmodel.RouteDef{{Path: pats[0], Methods: []string{"GET"}}, {Path: pats[1], Methods: []string{"GET", "POST"}}}, Methods: reqM,
 			Via: []string{regAPIs[n%len(regAPIs)], regAPIs[(n/len(regAPIs)+1)%len(regAPIs)]}})
 	})
+	permute(c01Pool, 2, func(pats []string) {
+		defs := []refmodel.RouteDef{{Path: pats[0], Methods: []string{"GET", "POST"}}, {Path: pats[1], Methods: []string{"GET"}}}
+		emit(c01Case{Routes: defs, Methods: reqM, Inspect: true})
+		emit(c01Case{Routes: defs, Methods: reqM, Late: true})
+	})
 	permute(c01Pool, 2, withSets)
 	if tier == "quick" {
 		permute(c01Pool, 3, allGet)
@@ -152,11 +165,46 @@ func c01Run(c c01Case, st *fw.Stats) []fw.Viol {
 		panic(err)
 	}
 	rec := &hitRec{}
-	r, pv := buildRouterVia(c.Routes, c.Via, rec)
+	var r *rux.Router
+	var pv any
+	note := ""
+	var full *refmodel.Table
+	n := len(c.Routes) - 1
+	if c.Late {
+		full = tb
+		if tb, err = refmodel.NewTable(c.Routes[:n], refmodel.Opts{}); err != nil {
+			panic(err)
+		}
+		note = " (caching router; the last route is not registered yet)"
+		r, pv = buildRouterVia(c.Routes[:n], c.Via, rec, rux.CachingWithNum(64))
+	} else {
+		r, pv = buildRouterVia(c.Routes, c.Via, rec)
+	}
 	if pv != nil {
 		add("register:panic", fmt.Sprintf("table [%s] (registered via %v): registration panicked: %v", defsString(c.Routes), c.Via, pv))
 		return viols
 	}
+	if c.Inspect {
+		c02Inspect(r)
+		note = " (after the router was inspected with String / Routes / IterateRoutes / NamedRoutes)"
+	}
+	c01Requests(c, r, rec, tb, note, st, add)
+	if c.Late && len(viols) == 0 {
+		// second round: register the last route, issue every request again
+		if _, pv2 := registerIntoAt(r, c.Routes, c.Via, false, rec, n); pv2 != nil {
+			add("register:panic", fmt.Sprintf("table [%s]: registering the last route after the first requests panicked: %v", defsString(c.Routes), pv2))
+		} else {
+			c01Requests(c, r, rec, full, " (caching router; the last route was registered after every request had been issued once)", st, add)
+		}
+	}
+	if st.WantSample() {
+		st.Sample(map[string]any{"table": defsString(c.Routes), "request_methods": strings.Join(c.Methods, ","), "paths": len(c01Paths), "example_paths": c01Paths[:8]})
+	}
+	return viols
+}
+
+// c01Requests issues every method x path on the router and compares with the table
+func c01Requests(c c01Case, r *rux.Router, rec *hitRec, tb *refmodel.Table, note string, st *fw.Stats, add func(sig, msg string)) {
 	for _, m := range c.Methods {
 		for _, p := range c01Paths {
 			st.Evals++
@@ -204,7 +252,7 @@ func c01Run(c c01Case, st *fw.Stats) []fw.Viol {
 				if want.Route >= 0 && wp.P != nil && len(wp.Vars) == 0 && wp.FirstSeg != "" {
 					sig += ":want-novar-optional-multiseg"
 				}
-				add(sig, fmt.Sprintf("table [%s]%s: %s %q: dispatched to route %d, the documented rule selects %d (qualifying routes %v, %s)", defsString(c.Routes), viaNote(c.Via), m, p, gotIdx, want.Route, q, want.Kind))
+				add(sig, fmt.Sprintf("table [%s]%s"+note+": %s %q: dispatched to route %d, the documented rule selects %d (qualifying routes %v, %s)", defsString(c.Routes), viaNote(c.Via), m, p, gotIdx, want.Route, q, want.Kind))
 				continue
 			}
 			if gotIdx >= 0 {
@@ -232,16 +280,12 @@ func c01Run(c c01Case, st *fw.Stats) []fw.Viol {
 			}
 		}
 	}
-	if st.WantSample() {
-		st.Sample(map[string]any{"table": defsString(c.Routes), "request_methods": strings.Join(c.Methods, ","), "paths": len(c01Paths), "example_paths": c01Paths[:8]})
-	}
-	return viols
 }
 
 var c01Spec = fw.Spec[c01Case]{
 	ID:    "C01",
 	Level: "model_checking",
-	Rule: "complete product: ordered route tables of <=K distinct patterns from a 27-pattern pool (every index/tier shortcut has colliding members) x method sets x registration APIs (Add, AddRoute(NewRoute), AddNamed, NewNamedRoute.AttachTo, GET/POST/... helpers, options via WithOptions, the pattern split into a Group prefix and a route path) x request methods x all 259 paths of <=3 segments over {a,b,a.b,axb,12,q.html}; " +
+	Rule: "complete product: ordered route tables of <=K distinct patterns from a 27-pattern pool (every index/tier shortcut has colliding members) x method sets x registration APIs (Add, AddRoute(NewRoute), AddNamed, NewNamedRoute.AttachTo, GET/POST/... helpers, options via WithOptions, the pattern split into a Group prefix and a route path) (+ every ordered pair again after the router's inspection API was used, and on a caching router with the second route registered only after a first round of all requests) x request methods x all 259 paths of <=3 segments over {a,b,a.b,axb,12,q.html}; " +
 		"each (table,method,path) is one evaluation: Router.Match and ServeHTTP on the real router vs refmodel.Resolve; non-trivial = at least two routes qualify or the winner is not the first registered route",
 	Assume: []string{
 		"patterns and paths are drawn from the stated alphabets; larger tables are covered only as far as the small-scope hypothesis goes",
